@@ -8,7 +8,7 @@
 // ops (one history = everything since the last `reset`):
 //   reset <attr> <old:0|1> <smart:0|1> <autofile:hex> <dir:hex>
 //   file <name:hex> <hex|absent>
-//   comment <ptt|bbs> <sysop|user> <userid:hex13> <reqname:hex28> <type:0..255> <text:hex> <ip:hex16> <mtime>
+//   comment <ptt|bbs|api> <sysop|user> <userid:hex13> <reqname:hex28> <type:0..255> <text:hex> <ip:hex16> <mtime>
 //   fcomment <room> <comment arguments>   the same, while only <room> (0..40) more bytes fit into the article
 //                                    (file-size limit of this process: the write fails with EFBIG after <room> bytes)
 //   begin <id> <comment arguments>   a commenter runs its lookup and is then kept waiting on the article's lock
@@ -19,6 +19,7 @@
 //   expire <id>                      ... is kept waiting until its five attempts are used up: it must fail, nothing changes
 //   par <rounds> <type> <text:hex> <mtime>   one commenter per index entry, all at the same moment, <rounds> comments each
 //   redir <dir:hex>                  another tool rewrites the board index (temp + rename, article count refreshed)
+//   stamp <days>                     types.Time4(now - days*86400).CdateMdHM() is called (another user of the stamp)
 //   zone <location>                  the site's TIME_LOCATION through viper + types.InitConfig
 //   mark <type>                      CommentType(type).Bytes() (validates the regenerated table)
 //   dump                             whole .DIR and every article file
@@ -47,6 +48,7 @@ import (
 	"syscall"
 	"time"
 
+	"github.com/Ptt-official-app/go-pttbbs/api"
 	"github.com/Ptt-official-app/go-pttbbs/bbs"
 	"github.com/Ptt-official-app/go-pttbbs/cache"
 	"github.com/Ptt-official-app/go-pttbbs/cmsys"
@@ -254,7 +256,7 @@ func errClass(err error) string {
 		return "refused"
 	case err == cmsys.ErrRecordNotFound:
 		return "err:notfound"
-	case err == ptt.ErrInvalidParams:
+	case err == ptt.ErrInvalidParams, err == api.ErrInvalidParams, err == bbs.ErrInvalidParams:
 		return "err:params"
 	case err == ptttype.ErrInvalidIdx:
 		return "err:idx"
@@ -462,10 +464,10 @@ func parseCall(w []string) (*call, bool) {
 	mtok, ok6 := parseNat(w[7], 2147483647)
 	if !(ok1 && ok2 && ok3 && ok4 && ok5 && ok6) || len(user) != ptttype.IDLEN+1 || len(req) != lenName ||
 		len(ip) != ptttype.IPV4LEN+1 || mtok == 0 || len(text) > 4096 ||
-		(via != "ptt" && via != "bbs") || (lvl != "sysop" && lvl != "user") || len(cstr(user)) == 0 {
+		(via != "ptt" && via != "bbs" && via != "api") || (lvl != "sysop" && lvl != "user") || len(cstr(user)) == 0 {
 		return nil, false
 	}
-	if via == "bbs" && (lvl != "sysop" || !bytes.Equal(user, sysopID[:]) || !canonName(req)) {
+	if (via == "bbs" || via == "api") && (lvl != "sysop" || !bytes.Equal(user, sysopID[:]) || !canonName(req)) {
 		return nil, false
 	}
 	return &call{via, lvl, user, req, text, ip, ctype, mtok}, true
@@ -493,7 +495,16 @@ func (c *call) invoke() (o outcome) {
 	copy(fn[:], c.req)
 	ipRaw := &ptttype.IPv4_t{}
 	copy(ipRaw[:], c.ip)
-	if c.via == "bbs" {
+	if c.via == "api" {
+		// the handler behind POST /board/:bid/article/:aid/comment, with the decoded JSON body and path
+		params := &api.CreateCommentParams{CommentType: ptttype.CommentType(c.ctype), Content: c.text}
+		path := &api.CreateCommentPath{BBoardID: bbs.BBoardID("10_" + brdWhoAmI), ArticleID: bbs.ToArticleID(fn)}
+		var r interface{}
+		r, o.err = api.CreateComment(string(c.ip), bbs.UUserID(cstr(c.user)), params, path, nil)
+		if res, ok := r.(*api.CreateCommentResult); ok && o.err == nil {
+			o.comment, o.mtime = res.Content, res.MTime
+		}
+	} else if c.via == "bbs" {
 		aid := bbs.ToArticleID(fn)
 		o.comment, o.mtime, o.err = bbs.CreateComment(bbs.UUserID(cstr(c.user)), bbs.BBoardID("10_"+brdWhoAmI), aid,
 			ptttype.CommentType(c.ctype), c.text, string(c.ip))
@@ -554,7 +565,7 @@ func doComment(line string, w []string) {
 		return
 	}
 	c, ok := parseCall(w[1:])
-	if !ok {
+	if !ok || (room >= 0 && c.via == "api") {
 		bad(line)
 		return
 	}
@@ -821,6 +832,12 @@ func judge(line string, c *call, stale bool, classes []string, dir0 []byte, file
 				failf("append:shape", "appended bytes differ from the returned comment")
 			}
 			judgeShape(failf, suf, ctype, cstr(user), text, ip)
+			if via == "api" {
+				// through the API every accepted request is a push, a boo or an arrow: its line starts with that mark
+				if !hasMark(suf) {
+					failf("append:no-mark", "the API accepted type %d and appended a line without a push/boo/arrow mark", ctype)
+				}
+			}
 		}
 		// --- replace the wall-clock Modified by the op's token (after it was judged)
 		if modOK && tgt >= 0 {
@@ -908,7 +925,7 @@ func doBegin(line string, w []string) {
 	id := w[1]
 	foreign := w[2] == "foreign"
 	c, ok := parseCall(w[3:])
-	if !ok || !reTicket.MatchString(id) || tickets[id] != nil || len(tickets) >= 8 {
+	if !ok || c.via == "api" || !reTicket.MatchString(id) || tickets[id] != nil || len(tickets) >= 8 {
 		bad(line)
 		return
 	}
@@ -1307,6 +1324,43 @@ func doPar(line string, w []string) {
 	}
 }
 
+// hasMark: the line starts with colour + one of the three Big5 marks (new layout) or with the fixed arrow of the
+// old layout.
+func hasMark(line []byte) bool {
+	if len(line) < 9 || line[0] != 0x1b {
+		return false
+	}
+	for _, m := range [][]byte{{0xb1, 0xc0}, {0xbc, 0x4e}, {0xa1, 0xf7}} {
+		if bytes.Equal(line[7:9], m) {
+			return true
+		}
+	}
+	return false
+}
+
+// doStamp: some other part of the server stamps a time a whole number of days ago (types.Time4.CdateMdHM is
+// used by forwards and cross-posts too); the stamp must be right, and so must the next comment's.
+func doStamp(line string, w []string) {
+	if len(w) != 2 {
+		bad(line)
+		return
+	}
+	days, ok := parseNat(w[1], 400)
+	if !ok {
+		bad(line)
+		return
+	}
+	if time.Now().Second() >= 57 {
+		time.Sleep(4 * time.Second) // keep the stamp and the following comment within one minute
+	}
+	ts := time.Now().Unix() - int64(days)*86400
+	got := types.Time4(ts).CdateMdHM()
+	i := run.Op(line, "ok", "stamp", false)
+	if want := time.Unix(ts, 0).In(curZone).Format("01/02 15:04"); got != want {
+		run.Fail(i, "append:time", fmt.Sprintf("CdateMdHM of %d days ago says %q, the clock in %s says %q", days, got, curZone, want))
+	}
+}
+
 // judgeShape: the appended bytes are one comment line for (type, commenter, text).
 func judgeShape(failf func(string, string, ...interface{}), line []byte, ctype uint64, uid, text, ip []byte) {
 	n := len(line)
@@ -1390,6 +1444,8 @@ func execLine(line string) {
 		doAppend(line, w)
 	case "par":
 		doPar(line, w)
+	case "stamp":
+		doStamp(line, w)
 	case "zone":
 		doZone(line, w)
 	case "redir":
